@@ -128,3 +128,74 @@ package schedule
 //@ at call NewOnce#1 assert [step-instances] arg(n) == step0
 //@ at call NewCompositeConf assert [all-parts-in-order] arg(conf).Nested == nexts
 //@ at call NewCompositeConf assert [steps-up-to-to] imp(from0 <= to0, from0 + ((len(nexts)-1)/2)*step0 <= to0 && to0 < from0 + ((len(nexts)-1)/2 + 1)*step0)
+
+// ---------------------------------------------------------------- composite (C02)
+
+// Data-structure invariant of a composite: leftAfter[k] is the exact number of tokens of the parts after part k
+// whenever it is non-negative (a negative entry means "was unknown when the composite was built");
+// the parts are distinct objects and the parts after the current one have not been started.
+//@ spec func wfComposite(s *compositeSchedule) bool = len(s.scheds) >= 1 && len(s.leftAfter) == len(s.scheds) && s.leftAfter[len(s.scheds)-1] == 0 && forall(k, 0, len(s.scheds)-1, imp(s.leftAfter[k] >= 0, leftOf[s.scheds[k+1]] >= 0 && s.leftAfter[k+1] >= 0 && s.leftAfter[k] == leftOf[s.scheds[k+1]] + s.leftAfter[k+1])) && forall(a, 0, len(s.scheds), forall(b, 0, len(s.scheds), imp(a != b, s.scheds[a] != s.scheds[b]))) && forall(k, 1, len(s.scheds), !startedOf[s.scheds[k]]) && forall(k, 0, len(s.scheds), s.scheds[k] != nil)
+
+// The number of tokens a composite has left: exact when every remaining part is known, -1 otherwise.
+//@ spec func compositeLeft(s *compositeSchedule) int = ite(len(s.scheds) == 1, leftOf[s.scheds[0]], ite(leftOf[s.scheds[0]] < 0 || s.leftAfter[0] < 0, -1, leftOf[s.scheds[0]] + s.leftAfter[0]))
+
+//@ func NewComposite
+//@ props C02
+//@ requires forall(a, 0, len(scheds), forall(b, 0, len(scheds), imp(a != b, scheds[a] != scheds[b])))
+//@ requires forall(k, 0, len(scheds), scheds[k] != nil && !startedOf[scheds[k]])
+//@ ghost n = len(scheds)
+//@ loop 0 invariant -1 <= i && i < n && len(left) == n && scheds == scheds0
+//@ loop 0 invariant [suffix-exact] forall(k, i+1, n-1, imp(left[k] >= 0, leftOf[scheds[k+1]] >= 0 && left[k+1] >= 0 && left[k] == leftOf[scheds[k+1]] + left[k+1]))
+//@ loop 0 invariant [suffix-unknown-only-if-unknown] forall(k, i+1, n-1, imp(left[k] < 0, leftOf[scheds[k+1]] < 0 || left[k+1] < 0))
+//@ loop 0 invariant [last] imp(i < n-1, left[n-1] == 0) && imp(i == n-1, leftAccumulator == 0 && !unknown)
+//@ loop 0 invariant [accumulator] imp(i < n-1, imp(leftAccumulator >= 0, leftOf[scheds[i+1]] >= 0 && left[i+1] >= 0 && leftAccumulator == leftOf[scheds[i+1]] + left[i+1]))
+//@ loop 0 invariant [accumulator-unknown-only-if-unknown] imp(i < n-1 && leftAccumulator < 0, leftOf[scheds[i+1]] < 0 || left[i+1] < 0)
+//@ loop 0 invariant [unknown-flag] imp(unknown, leftAccumulator == -1) && imp(!unknown, leftAccumulator >= 0)
+//@ loop 0 invariant [parts-untouched] forall(k, 0, n, !startedOf[scheds[k]])
+//@ at call NewOnce assert [empty-composite-has-no-tokens] arg(n) == 0
+//@ ensures [single-part-is-itself] imp(n == 1, result == scheds[0])
+//@ ensures [composite] imp(n >= 2, typeis(result, *compositeSchedule) && fresh(result.(*compositeSchedule)) && wfComposite(result.(*compositeSchedule)) && result.(*compositeSchedule).scheds == scheds)
+//@ ensures [unknown-only-if-a-later-part-is-unknown] imp(n >= 2, forall(k, 0, n-1, imp(result.(*compositeSchedule).leftAfter[k] < 0, leftOf[scheds[k+1]] < 0 || result.(*compositeSchedule).leftAfter[k+1] < 0)))
+
+//@ func (s *compositeSchedule) startNext
+//@ props C02
+//@ requires wfComposite(s) && len(s.scheds) >= 2
+//@ ensures [shifted] len(s.scheds) == old(len(s.scheds)) - 1 && forall(k, 0, len(s.scheds), s.scheds[k] == old(s.scheds)[k+1] && s.leftAfter[k] == old(s.leftAfter)[k+1])
+//@ ensures wfComposite(s)
+//@ at call s.scheds[0].Start assert [next-part-starts-at-the-finish-of-the-previous] arg(startAt) == currentFinishTime0
+//@ modifies s.scheds, s.leftAfter, startedOf[old(s.scheds)[1]]
+
+// Other goroutines only ever drop finished parts from the front of the list.
+//@ spec func shrunkFromFront(s *compositeSchedule, scheds0 []core.Schedule, la0 []int) bool = len(s.scheds) >= 1 && len(s.scheds) <= len(scheds0) && forall(k, 0, len(s.scheds), s.scheds[k] == scheds0[k + len(scheds0) - len(s.scheds)] && s.leftAfter[k] == la0[k + len(scheds0) - len(s.scheds)])
+
+// quiet(): no other goroutine changes the composite while the call runs. The lock-protected fields are havocked where the
+// write lock is (re)acquired and only the data-structure invariant is assumed; the numeric clauses below are sequential.
+//@ spec func quiet() bool
+
+//@ func (s *compositeSchedule) Left
+//@ props C02
+//@ requires wfComposite(s) && held(s.rwMu) == 0
+//@ at call s.rwMu.Lock havoc s.scheds, s.leftAfter
+//@ at call s.rwMu.Lock assume [monitor-invariant] wfComposite(s) && shrunkFromFront(s, old(s.scheds), old(s.leftAfter)) && imp(quiet(), len(s.scheds) == old(len(s.scheds)))
+//@ ensures wfComposite(s) && held(s.rwMu) == 0
+//@ ensures [exact-when-known-negative-only-when-unknown] result == compositeLeft(s)
+//@ ensures [parts-only-dropped-from-the-front] len(s.scheds) <= old(len(s.scheds))
+
+//@ func (s *compositeSchedule) Next
+//@ props C02
+//@ requires wfComposite(s) && held(s.rwMu) == 0
+//@ at call s.rwMu.Lock havoc s.scheds, s.leftAfter
+//@ at call s.rwMu.Lock assume [monitor-invariant] wfComposite(s) && shrunkFromFront(s, old(s.scheds), old(s.leftAfter)) && imp(quiet(), len(s.scheds) == old(len(s.scheds)))
+//@ ensures wfComposite(s) && held(s.rwMu) == 0
+//@ ensures [token-event] ev(token) == old(ev(token)) + ite(ok, 1, 0)
+//@ ensures [finished-only-when-all-parts-finished] imp(!ok, len(s.scheds) == 1 && leftOf[s.scheds[0]] == 0)
+//@ ensures [left-drops-by-one-per-token] imp(quiet() && ok && old(compositeLeft(s)) > 0, compositeLeft(s) == old(compositeLeft(s)) - 1)
+//@ ensures [exhausted-stays-exhausted] imp(quiet() && old(compositeLeft(s)) == 0, !ok)
+//@ at call s.startNext assert [next-part-starts-at-the-finish-of-the-previous] arg(currentFinishTime) == result_of(s.scheds[0].Next, 0) && !result_of(s.scheds[0].Next, 1)
+
+//@ func (s *compositeSchedule) Start
+//@ props C02
+//@ requires wfComposite(s) && held(s.rwMu) == 0
+//@ may_panic startedOf[s.scheds[0]]
+//@ ensures wfComposite(s) && held(s.rwMu) == 0 && startedOf[s.scheds[0]]
+//@ at call s.scheds[0].Start assert [first-part-starts-at-the-given-time] arg(startAt) == startAt0
